@@ -283,6 +283,7 @@ impl Prop for C11 {
             GenSpec::random("noise", tier.pick(100, 10_000)),
             GenSpec::enumerated("scaling", tier.pick(6, 9)),
             // interpreter-sized cases for the Miri leg (tools/legs.sh); not part of the native plan
+            GenSpec::random("giant-tokens", tier.pick(10, 200)),
             GenSpec::random("miri-sample", 0),
             // instruction-count leg (tools/irleg.sh, valgrind --tool=cachegrind): one read of a library of 32 * 2^(n/2) macros;
             // odd n: the same text with an error at the very end (the error report is part of the cost). Not part of the native plan.
@@ -329,6 +330,30 @@ impl Prop for C11 {
                 cx.nontrivial(crate::rt::prng::strhash(&text));
                 self.nonascii_faults(cx, &text);
                 cx.sample(|| json!({"seed_text": text.chars().take(300).collect::<String>()}));
+            }
+            "giant-tokens" => {
+                // ONE token of more than 64 KiB (a name made of multi-byte letters, a word where a keyword is expected, a string literal that
+                // never ends), and numbers with more fractional digits than the decimal type holds: lengths and scales that a narrower
+                // integer cannot say
+                let ch = *cx.rng.pick(&["語", "é", "😀", "x", "क"]);
+                let n = 66_000 / ch.len() + cx.rng.usize(40_000);
+                let word: String = std::iter::repeat(ch).take(n).collect();
+                let zeros: String = std::iter::repeat('0').take(29 + cx.rng.usize(14)).collect();
+                let texts = [
+                    format!("VERSION 5.8 ;\nMACRO {w}\n  SIZE 1 BY 1 ;\nEND {w}\nEND LIBRARY\n", w = word),
+                    format!("VERSION 5.8 ;\n{} ;\nEND LIBRARY\n", word),
+                    format!("VERSION 5.8 ;\nMACRO m\n  PROPERTY p \"{}\" ;\nEND m\nEND LIBRARY\n", word),
+                    format!("VERSION 5.8 ;\nMACRO m\n  PROPERTY p \"{}\n", word),
+                    format!("VERSION 5.8 ;\nMACRO m\n  SIZE 0.{z} BY 1 ;\nEND m\nEND LIBRARY\n", z = zeros),
+                    format!("VERSION 5.8 ;\nMACRO m\n  SIZE 0.{z}1 BY -0.{z} ;\nEND m\nEND LIBRARY\n", z = zeros),
+                    format!("VERSION 5.8 ;\nMANUFACTURINGGRID 0.{z}5 ;\nEND LIBRARY\n", z = &zeros[..28]),
+                ];
+                for t in texts.iter() {
+                    cx.nontrivial(crate::rt::prng::strhash(t));
+                    self.probe(cx, t.as_bytes(), "giant-token");
+                }
+                cx.count("giant_token_texts");
+                cx.sample(|| json!({"token_bytes": word.len(), "fraction_digits": zeros.len()}));
             }
             "long-lines" => {
                 // LEF is whitespace-insensitive: put a whole library on ONE long line, thread runs of multi-byte characters through its names,
